@@ -35,7 +35,8 @@ EXTENDS Integers, Sequences, FiniteSets, TLC
 CONSTANTS FreezeBeforeMetaFlush,
           CommitSeqBeforeWrite,  \* the replicator commits the sequence before it writes the rows (seeded change C07b)
           SeriesFirst,           \* the index flush commits the series family before the index families (seeded change C07c)
-          ExpireOnConsumed       \* the log of an expired family counts as empty once everything is CONSUMED (seeded change C07d)
+          ExpireOnConsumed,      \* the log of an expired family counts as empty once everything is CONSUMED (seeded change C07d)
+          Writable               \* late data of the family is still accepted (not older than the option `behind`): its log never expires
 
 VARIABLES
   \* ---- durable ----
@@ -215,10 +216,12 @@ SyncGC ==
 
 \* Partition.IsExpire of a family that left the writable window (the periodic WAL GC task): Sync + GC, then the
 \* log counts as expired when no consumer group has data (appended <= acknowledged); an expired log is destroyed
-\* by the task (partition stopped and closed, directory removed): nothing is in the log afterwards
+\* by the task (partition stopped and closed, directory removed): nothing is in the log afterwards.  While late
+\* data of the family is still accepted the log must not expire: a new log would restart at sequence 0 and the
+\* family, which validates every entry against the sequence it recorded for the leader, would drop the entries
 ExpireCheck(res) ==
   /\ up /\ ifl.st = "none"
-  /\ res = (Len(wal) - 1 <= (IF ExpireOnConsumed THEN gCons ELSE gAck))
+  /\ res = (~Writable /\ Len(wal) - 1 <= (IF ExpireOnConsumed THEN gCons ELSE gAck))
   /\ IF res
        THEN qAck' = Len(wal) - 1 /\ gAck' = Len(wal) - 1 /\ gCons' = Len(wal) - 1
        ELSE /\ LET m == IF gAck < Len(wal) - 1 THEN gAck ELSE Len(wal) - 1 IN
